@@ -30,6 +30,10 @@ CHECKS = {
  "C19": ("opspace", "exhaustive enumeration of integers (dense range + every bit-length and power-of-ten boundary) and of m*10^t decimals x destination pre-states x contexts on the real code",
          "NumDigits on every |b| < 2^20 (2^22 thorough) and every bit-length/power-of-ten boundary up to thousands of bits, both signs, against the decimal text length; Decimal.Reduce/Context.Reduce on the m*10^t family against value equality, no trailing zero, exact count, independence of the destination.",
          "Zero-count convention: zeros of the rounded coefficient; zero operand => 0.", "4/C19"),
+
+ "C16": ("stategraph", "explicit-state BFS over method sequences on a real BigInt receiver with canonical state hashing, every transition mirrored on a math/big.Int object graph with identical aliasing",
+         "States are receivers (value, representation class inline+/inline-/heap-small/heap) reached by method sequences to depth 2 (3 thorough); from every state every method x argument tuple x alias pattern of the alphabet is applied to the real BigInt and to a *big.Int mirror; all observers (Sign, BitLen, Cmp, text in 5 bases, bytes, bits, 64-bit conversions, encoders, fmt verbs), panic parity, argument immutability and representation invariants (no negative zero) are compared on every transition.",
+         "math/big is the reference; only alias patterns math/big supports; receiver undefined after a failed SetString is not observed.", "4/C16"),
 }
 
 NOT_YET = {}
